@@ -97,35 +97,51 @@ def run(repo, rep, tier):
                 dotted(n.value.func) == 'int' and len(n.targets) == 1 and \
                 isinstance(n.targets[0], ast.Name):
             conv[n.targets[0].id] = n
-    checks = {'max': [], 'min': []}
-    flag_ifs = []
-    for n in cfg.stmts():
-        if isinstance(n, ast.If):
-            t = dotted(n.test)
-            if t is not None and t.split('.')[-1] == 'ENFORCE_INTEGER_RANGE':
-                flag_ifs.append(n)
-            raises = always_exits(n.body) and any(
-                isinstance(x, ast.Raise) and x.exc is not None and
-                'ValueError' in norm(x.exc) for x in n.body)
-            if not raises:
-                continue
-            for a in _atoms(n.test):
-                b = _bound_atom(a)
-                if b is not None and b[1] in conv:
-                    checks[b[0]].append((n, b[1]))
+    # at the construction, either the range enforcement is switched off or
+    # the value is known to lie within [cls.minvalue, cls.maxvalue]: decided
+    # on the facts that hold there (whatever the shape of the test: nested
+    # ifs, one combined condition, a guard with early raise)
+    from ..cfg import prop_models
+    from ..paths import return_paths
+    rpaths = return_paths(new, inline=False) or []
 
-    def flag_false_edge(a, b, labels):
-        return a in flag_ifs and labels == {False}
-
+    def leaves_of(e, out):
+        if isinstance(e, ast.BoolOp):
+            for v in e.values:
+                leaves_of(v, out)
+        elif isinstance(e, ast.UnaryOp) and isinstance(e.op, ast.Not):
+            leaves_of(e.operand, out)
+        else:
+            out.append(e)
     for ret in ctor_rets:
+      for pth in [p_ for p_ in rpaths if p_.ret_stmt is ret]:
         r1.sites += 1
+        fs = list(pth.facts)
+        lv = []
+        for t, _p in fs:
+            leaves_of(t, lv)
+        flag = {norm(x, 300) for x in lv
+                if (dotted(x) or '').split('.')[-1] == 'ENFORCE_INTEGER_RANGE'}
+        bound = {'max': set(), 'min': set()}
+        for x in lv:
+            b_ = _bound_atom(x)
+            if b_ is not None and b_[1] in conv:
+                bound[b_[0]].add(norm(x, 300))
+        pm = prop_models(fs)
         for which in ('max', 'min'):
-            ifs = [c[0] for c in checks[which]]
-            wit = cfg.path_avoiding(cfg.ENTRY, ret,
-                                    lambda n: n in ifs, flag_false_edge)
-            ok = bool(ifs) and wit is None
+            ok = False
+            if pm is not None:
+                _lv, models = pm
+                # in every situation that reaches the construction: the
+                # switch is off, or "value beyond the bound" is false
+                ok = all(
+                    any(not m[f_] for f_ in flag) or
+                    (bool(bound[which]) and
+                     all(not m[b_] for b_ in bound[which]))
+                    for m in models)
             r1.ob(ok, 'CIMInt.__new__:%s' % which,
-                  {'return': norm(ret), 'check': [norm(i.test) for i in ifs],
+                  {'return': norm(ret), 'facts': [norm(t, 60)
+                                                  for t, _p in fs],
                    'bypass_only_via': 'ENFORCE_INTEGER_RANGE'})
             if not ok:
                 rep.finding(r1, new.qualname, norm(ret), 'no-%s-check' % which,
